@@ -25,6 +25,7 @@ type crashOpts struct {
 	power   bool // C11: power-loss images (SyncEnable forced on)
 	allTorn bool
 	sameMs  bool // back-to-back failed + successful transactions
+	wmerge  bool // Merge calls in the workload, crash points everywhere
 }
 
 type imgResult struct {
@@ -158,7 +159,7 @@ func (g *gen) histCrash(o crashOpts) {
 		if g.s.Panics > 0 {
 			break
 		}
-		if o.merges && g.r.Intn(100) < 25 {
+		if (o.merges || o.wmerge) && g.r.Intn(100) < 25 {
 			g.s.MergeObs(dir + "-shadow")
 		}
 		if g.r.Intn(10) == 0 {
